@@ -166,7 +166,7 @@ def selftest(pid, ctx):
             if not (os.path.exists(mp) and os.path.exists(pp)):
                 continue
             meta = json.load(open(mp))
-            if meta.get("property") != pid:
+            if meta.get("property") != pid or meta.get("rejected"):
                 continue
             r = mut.run_patch(pid, pp)
             seeds.append({"seed": name, "result": r["result"], "fired": r.get("fired")})
